@@ -158,6 +158,72 @@ theorem unesc_flatMap_textChar (s : Str) (hs : ∀ c ∈ s, isXmlChar c = true) 
     simp only [List.flatMap_cons, List.append_assoc, unesc_textChar c hc, ih']
     cases unescGo false none rest <;> simp
 
+/-! the escaping layer alone: invertible on EVERY string (no `isXmlChar` hypothesis) -/
+
+theorem unescAny_attrChar (c : Char) (rest : Str) :
+    unescAnyGo none (attrChar c ++ rest) = (unescAnyGo none rest).map (c :: ·) := by
+  by_cases h1 : c = '&'
+  · subst h1; simp [attrChar, encChar, wspRef, unescAnyGo, decodeEntity]
+  by_cases h2 : c = '<'
+  · subst h2; simp [attrChar, encChar, wspRef, unescAnyGo, decodeEntity]
+  by_cases h3 : c = '>'
+  · subst h3; simp [attrChar, encChar, wspRef, unescAnyGo, decodeEntity]
+  by_cases h4 : c = '"'
+  · subst h4; simp [attrChar, encChar, wspRef, unescAnyGo, decodeEntity]
+  by_cases h5 : c = '\''
+  · subst h5
+    simp [attrChar, encChar, wspRef, unescAnyGo, decodeEntity, parseNum, hexDigitVal, charOfRef, isXmlChar]
+  by_cases h6 : c = '\t'
+  · subst h6
+    simp [attrChar, encChar, wspRef, unescAnyGo, decodeEntity, parseNum, decDigitVal, charOfRef, isXmlChar]
+  by_cases h7 : c = '\n'
+  · subst h7
+    simp [attrChar, encChar, wspRef, unescAnyGo, decodeEntity, parseNum, decDigitVal, charOfRef, isXmlChar]
+  by_cases h8 : c = '\r'
+  · subst h8
+    simp [attrChar, encChar, wspRef, unescAnyGo, decodeEntity, parseNum, decDigitVal, charOfRef, isXmlChar]
+  simp [attrChar, encChar, wspRef, unescAnyGo, h1, h2, h3, h4, h5, h6, h7, h8]
+
+theorem unescAny_textChar (c : Char) (rest : Str) :
+    unescAnyGo none (textChar c ++ rest) = (unescAnyGo none rest).map (c :: ·) := by
+  by_cases h1 : c = '&'
+  · subst h1; simp [textChar, encChar, crRef, unescAnyGo, decodeEntity]
+  by_cases h2 : c = '<'
+  · subst h2; simp [textChar, encChar, crRef, unescAnyGo, decodeEntity]
+  by_cases h3 : c = '>'
+  · subst h3; simp [textChar, encChar, crRef, unescAnyGo, decodeEntity]
+  by_cases h4 : c = '"'
+  · subst h4; simp [textChar, encChar, crRef, unescAnyGo, decodeEntity]
+  by_cases h5 : c = '\''
+  · subst h5
+    simp [textChar, encChar, crRef, unescAnyGo, decodeEntity, parseNum, hexDigitVal, charOfRef, isXmlChar]
+  by_cases h8 : c = '\r'
+  · subst h8
+    simp [textChar, encChar, crRef, unescAnyGo, decodeEntity, parseNum, decDigitVal, charOfRef, isXmlChar]
+  simp [textChar, encChar, crRef, unescAnyGo, h1, h2, h3, h4, h5, h8]
+
+theorem unescAny_encChar (c : Char) (rest : Str) :
+    unescAnyGo none (encChar c ++ rest) = (unescAnyGo none rest).map (c :: ·) := by
+  by_cases h1 : c = '&'
+  · subst h1; simp [encChar, unescAnyGo, decodeEntity]
+  by_cases h2 : c = '<'
+  · subst h2; simp [encChar, unescAnyGo, decodeEntity]
+  by_cases h3 : c = '>'
+  · subst h3; simp [encChar, unescAnyGo, decodeEntity]
+  by_cases h4 : c = '"'
+  · subst h4; simp [encChar, unescAnyGo, decodeEntity]
+  by_cases h5 : c = '\''
+  · subst h5
+    simp [encChar, unescAnyGo, decodeEntity, parseNum, hexDigitVal, charOfRef, isXmlChar]
+  simp [encChar, unescAnyGo, h1, h2, h3, h4, h5]
+
+theorem unescAny_flatMap (f : Char → Str)
+    (hf : ∀ c rest, unescAnyGo none (f c ++ rest) = (unescAnyGo none rest).map (c :: ·)) (s : Str) :
+    unescAnyGo none (s.flatMap f) = some s := by
+  induction s with
+  | nil => simp [unescAnyGo]
+  | cons c s ih => simp only [List.flatMap_cons, hf, ih, Option.map_some]
+
 /-- characters that need no escaping in either position and are not touched by normalisation -/
 def plainChar (c : Char) : Bool :=
   isXmlChar c && c != '&' && c != '<' && c != '"' && c != '\t' && c != '\n' && c != '\r'
